@@ -218,7 +218,7 @@ def check(case, rec):
     rec.nontrivial(nt)
 
 
-PARTS = [Part("eq", cases(), check, n_quick=2500, n_thorough=8000)]
+PARTS = [Part("eq", cases(), check, n_quick=2500, n_thorough=25000)]
 
 
 def coverage_warnings(rec):
